@@ -705,10 +705,11 @@ def main(ck: Check):
 
     # ---------------------------------------------------------------- Lean: regenerate, prove, correspondence
     with ck.locked():
-        ok_gen = ck.regenerate(["levels"])
+        ok_gen = ck.regenerate(["levels", "effects"])     # effects: the build path of Props/C16_Effects.lean
         proved = ok_gen and ck.prove("Simaple.Props.C16")
         if not quick and proved:
             ck.leanchecker(["Simaple.Props.C16"])
+        effect_rows = ck.effect_entries(16, "Simaple.Props.C16.build_path_wellFormed") if ok_gen else None
         meta = ck.driver([{"fn": "levels_formulas"}]) if ok_gen else None
         formulas = meta[0].get("ok") if meta and "ok" in meta[0] else None
         reqs, expect = [], []
@@ -855,6 +856,7 @@ def main(ck: Check):
         "damage_field_comparisons": comparisons,
         "damage_figures_read": damage_figures,
         "replacement_pairs_checked": repl_cases,
+        "build_path_functions_checked_by_the_effect_model": effect_rows,
         "builds_repeated_in_two_new_interpreters_in_opposite_orders": order_builds,
         "plans_run_to_completion": plans_run,
         "plan_commands": plan_cmds,
